@@ -68,6 +68,8 @@ def minimal_site(t, z, kind):
 
 def zname(z):
     n = tname(z)
+    if type(z) is int and z.bit_length() > 15000:
+        return "int-over-4300-digits"
     if isinstance(z, float):
         return f"float:{z!r}"
     if isinstance(z, dict) and len(z) == 1:
